@@ -94,6 +94,7 @@ int sqfs_meta_reader_seek(sqfs_meta_reader_t *m, sqfs_u64 block_start,
 			  size_t offset)
 {
 	bool compressed;
+	size_t data_used;
 	sqfs_u16 header;
 	sqfs_u32 size;
 	sqfs_s32 ret;
@@ -124,6 +125,17 @@ int sqfs_meta_reader_seek(sqfs_meta_reader_t *m, sqfs_u64 block_start,
 	if ((block_start + 2 + size) > m->limit)
 		return SQFS_ERROR_OUT_OF_BOUNDS;
 
+	/*
+	 * The cached block is overwritten from here on. Forget it first, so
+	 * that a failure below cannot leave the new bytes filed under the
+	 * location of the old block. The reader is back in the state it had
+	 * right after creation until a seek succeeds.
+	 */
+	m->block_offset = 0xFFFFFFFFFFFFFFFFUL;
+	m->next_block = 0;
+	m->data_used = 0;
+	m->offset = 0;
+
 	err = m->file->read_at(m->file, block_start + 2, m->data, size);
 	if (err)
 		return err;
@@ -136,16 +148,17 @@ int sqfs_meta_reader_seek(sqfs_meta_reader_t *m, sqfs_u64 block_start,
 			return ret;
 
 		memcpy(m->data, m->scratch, ret);
-		m->data_used = ret;
+		data_used = ret;
 	} else {
-		m->data_used = size;
+		data_used = size;
 	}
 
-	if (offset >= m->data_used)
+	if (offset >= data_used)
 		return SQFS_ERROR_OUT_OF_BOUNDS;
 
 	m->block_offset = block_start;
 	m->next_block = block_start + size + 2;
+	m->data_used = data_used;
 	m->offset = offset;
 	return 0;
 }
